@@ -306,6 +306,20 @@ pub async fn af_pair(x: u32) -> (u32, u32) {
     (x, x)
 }
 
+pub type Hm = std::collections::HashMap<String, Vec<u8>>;
+pub type LongA = (Hm, Hm, Hm, Hm, u32);
+pub type LongB = (Hm, Hm, Hm, Hm, u64);
+#[inline(never)]
+pub async fn af_long_a(x: u32) -> LongA {
+    BODY[7].fetch_add(1, SeqCst);
+    (Hm::new(), Hm::new(), Hm::new(), Hm::new(), x)
+}
+#[inline(never)]
+pub async fn af_long_b(x: u64) -> LongB {
+    BODY[7].fetch_add(1, SeqCst);
+    (Hm::new(), Hm::new(), Hm::new(), Hm::new(), x)
+}
+
 /// C09, async half: every ordered pair of output types through async_func! x async_return!
 fn run_async_pairs() {
     panics::install_hook();
@@ -339,6 +353,9 @@ fn run_async_pairs() {
             // types whose text CONTAINS the text of another member
             pair!($t1, "Option<u32>", $fut, $ty1, Some(1u32), Option<u32>);
             pair!($t1, "(u32, u32)", $fut, $ty1, (1u32, 2u32), (u32, u32));
+            // type names far longer than 160 / 256 characters that differ only in their last component
+            pair!($t1, "long..u32", $fut, $ty1, (Hm::new(), Hm::new(), Hm::new(), Hm::new(), 1u32), LongA);
+            pair!($t1, "long..u64", $fut, $ty1, (Hm::new(), Hm::new(), Hm::new(), Hm::new(), 1u64), LongB);
         }};
     }
     row!("u32", a2(0), u32);
@@ -350,6 +367,8 @@ fn run_async_pairs() {
     row!("na2::Tag", af_tag2(0), na2::Tag);
     row!("Option<u32>", af_opt(0), Option<u32>);
     row!("(u32, u32)", af_pair(0), (u32, u32));
+    row!("long..u32", af_long_a(0), LongA);
+    row!("long..u64", af_long_b(0), LongB);
 }
 
 pub fn run(script: &str, out: &str) {
